@@ -788,6 +788,25 @@ def rpcOps (tbl : Table (Method Log Int)) (s : Log) : List String → List Strin
       | _, _, _ => "bad-op" :: rpcOps tbl s rest
     | _ => "bad-op" :: rpcOps tbl s rest
 
+/-! ### introspection of a registered namespace's methods
+
+`_listMethods` keeps one entry per published method; `system.methodHelp` answers the entry as it is and
+`system.methodSignature` parses it as a text.  A method's `__doc__` is `none` when nobody documented it (every method of a
+third-party namespace may be like that; `python -OO` makes all of them so).  XML-RPC has no value for Python's `None` and
+`gettags` splits a text, so an entry that is not a text becomes an HTTP 500. -/
+inductive Introspected where
+  | text (s : String)        -- a string value (methodHelp) / a text that can be parsed for tags (methodSignature)
+  | http500                  -- `cannot marshal None` / AttributeError in gettags: the outer guard answers 500
+  deriving DecidableEq, Repr
+
+def storedHelp (storesText : Bool) (doc : Option String) : Option String :=
+  if storesText then some (doc.getD "None") else doc
+
+def methodHelpAnswer (storesText : Bool) (doc : Option String) : Introspected :=
+  match storedHelp storesText doc with
+  | some s => .text s
+  | none => .http500
+
 def runCase (cfg : List String) (ops : List String) : List String :=
   match cfg.mapM parseEntry with
   | some es => rpcOps (tableOf es) [] ops
